@@ -200,7 +200,7 @@ func init() {
 			_ = m0
 			var cands []model.Occurrence
 			for _, oc := range occ {
-				if oc.Embed || hasAnyKey(c0, "exclude_fields", oc.TypeKey, oc.FullKey) {
+				if oc.Embed || hasAnyKey(c0, "exclude_fields", oc.TypeKey, oc.FullKey, oc.EmbedKey) {
 					continue
 				}
 				cands = append(cands, oc)
@@ -216,7 +216,7 @@ func init() {
 					}
 				}
 				opt := rapid.SampledFrom(c11Options).Draw(t, "option")
-				if hasAnyKey(c0, opt, oc.TypeKey, oc.FullKey) {
+				if hasAnyKey(c0, opt, oc.TypeKey, oc.FullKey, oc.EmbedKey) {
 					opt = "" // already addressed in K0: the variants are identical (a valid, trivial case)
 				}
 				if opt == "exclude_fields" {
@@ -235,7 +235,7 @@ func init() {
 					}
 					if n+1 >= len(msg.Fields) {
 						opt = "sensitive_fields"
-						if hasAnyKey(c0, opt, oc.TypeKey, oc.FullKey) {
+						if hasAnyKey(c0, opt, oc.TypeKey, oc.FullKey, oc.EmbedKey) {
 							opt = ""
 						}
 					}
@@ -244,6 +244,8 @@ func init() {
 				key := oc.TypeKey
 				if full {
 					key = oc.FullKey
+				} else if oc.EmbedKey != "" && rapid.Bool().Draw(t, "embedkey") {
+					key = oc.EmbedKey
 				}
 				cs = c11Case{Option: opt, Key: key, Full: full, Message: oc.Message, Field: oc.Field.Name, Paths: count[oc.TypeKey]}
 				switch opt {
